@@ -214,6 +214,7 @@ def main():
             rep = props.replay(ctx, spec, doc)
         else:
             rep = spec['run'](ctx)
+            props.extra_pass(ctx, rep, prop)
             if (rep.disagreements or not pinfo['ok']) and not rep.failures and spec.get('search'):
                 # correspondence or proof broken: search for an input on which the property itself fails
                 ctx.searching = True
